@@ -139,6 +139,20 @@ Section TokLemmas.
     exists t. split; [exact F|]. lia.
   Qed.
 
+  Lemma token_effect2_totals tk tk' c caller cl w1 d1 w2 d2 res :
+    token_effect2 xcall MODULE tk tk' c caller cl w1 d1 w2 d2 res ->
+    forall c' t', mfind tk' c' = Some t' ->
+      exists t, mfind tk c' = Some t /\ st_total t' = st_total t + (if c' =? c then dtotal cl res else 0).
+  Proof.
+    intros (tka & v0 & tkb & e0 & tk1 & tkc & v1 & e1 & B0 & B0' & E & O & B1 & B1' & V & V') c' t' F'.
+    destruct (tok_balance_totals _ _ _ _ _ B1' c' t' F') as (t3 & F3 & T3).
+    destruct (tok_balance_totals _ _ _ _ _ B1 c' t3 F3) as (t2 & F2 & T2).
+    destruct (tok_exec_totals _ _ _ _ _ _ E c' t2 F2) as (t1 & F1 & T1).
+    destruct (tok_balance_totals _ _ _ _ _ B0' c' t1 F1) as (t0 & F0 & T0).
+    destruct (tok_balance_totals _ _ _ _ _ B0 c' t0 F0) as (t & F & T).
+    exists t. split; [exact F|]. lia.
+  Qed.
+
   (** ** Explicit ledger effect on a contract deployed by the module *)
   Lemma tok_balance_mtok tk c a tk' v t :
     mfind tk c = Some t -> tok_balance xcall MODULE tk c a = (tk', v) ->
